@@ -116,9 +116,18 @@ func checkC05(c *Ctx) {
 	c.Assumptions = []string{"MemState substituted for LevelDB (same Get/Set semantics)", "explored from one node's point of view: deals are the per-recipient ones plus the self-confirmation", "messages are harness-built and signed with the claimed participant's registered key (unknown ids are claimed by a legitimate sender)", "a missing round and a freshly created idle round are treated as the same round state (byte-exactness of rejected input is C18's subject)"}
 	maxN := c.Pick(3, 4)
 	c.Exhaustive = true
+	var cfgs []ntCase
 	for n := 2; n <= maxN; n++ {
 		for t := 2; t <= n; t++ {
-			n, t := n, t
+			cfgs = append(cfgs, ntCase{n, t})
+		}
+	}
+	if c.Thorough() {
+		cfgs = append(cfgs, ntCase{5, 2}, ntCase{5, 5})
+	}
+	Parallel(len(cfgs), 8, func(ci int) {
+		{
+			n, t := cfgs[ci].N, cfgs[ci].T
 			readySeen := 0
 			cancelledSeen := map[string]bool{}
 			hooks := dkgHooks{onTransition: func(ex *explorer, s *exState, ev *exEvent, res *exResult, mon monC05) (monC05, bool) {
@@ -225,5 +234,5 @@ func checkC05(c *Ctx) {
 			}
 			c.Sample(map[string]interface{}{"n": n, "t": t, "states": st, "transitions": tr, "cancelled_state_names": sortedKeys(cancelledSeen)})
 		}
-	}
+	})
 }
